@@ -180,6 +180,68 @@ def rand_nl(rng, nmin, nmax, lcap, count, distinct_n=False, l_le_n=False):
     return out
 
 
+# ---- coefficient / operand dtypes: int, float, complex.  A complex array is compared with the (real) model through the
+# standard real embedding: re and im stacked, complex matrices / scalars as real block matrices
+DTYPES = ("int", "float", "complex")
+
+
+def rand_typed(rng, dtype, shape, density=0.7, nonreal=True):
+    """dyadic array of the given dtype (int: small integers; float: k/4; complex: k/4 + i k'/4 with a non-zero
+    imaginary part somewhere when nonreal)"""
+    shape = tuple(shape)
+    n = int(np.prod(shape)) if shape else 1
+    if dtype == "int":
+        v = np.array([rng.randint(-3, 3) if rng.random() < density else 0 for _ in range(n)], dtype=np.int64)
+        if not v.any(): v[rng.randrange(n)] = rng.choice([-2, -1, 1, 2, 3])
+    elif dtype == "float":
+        v = np.array([dy(rng) if rng.random() < density else 0.0 for _ in range(n)], dtype=np.float64)
+        if not any(x != int(x) for x in v): v[rng.randrange(n)] = rng.choice([-1.25, -.5, .25, .75, 1.5])   # not integer valued
+    else:
+        v = np.array([(dy(rng) + 1j * dy(rng)) if rng.random() < density else 0.0 for _ in range(n)], dtype=np.complex128)
+        if nonreal and not np.any(v.imag != 0): v[rng.randrange(n)] += 1j * rng.choice([-1.5, -.5, .5, 1.25])
+    return v.reshape(shape) if shape else v.reshape(())[()]
+
+
+def typed_expansion(rng, dim, shape, nl, dtype):
+    return [(n, l, rand_typed(rng, dtype, (npow_count(dim, l),) + tuple(shape), density=0.5)) for n, l in nl]
+
+
+def as3(c):
+    """coefficient array (P,) / (P,r,m) -> complex (P,r,m)"""
+    c = np.asarray(c)
+    if c.ndim == 1: c = c.reshape((c.shape[0], 1, 1))
+    return c.astype(np.complex128)
+
+
+def vstackc(cl):
+    """[(n,l,c)] -> real [(n,l,(P,2r,m))]: rows = re stacked over im (left multiplication acts on it by block_l)"""
+    return [(int(n), int(l), np.concatenate([as3(c).real, as3(c).imag], axis=1)) for n, l, c in cl]
+
+
+def hstackc(cl):
+    """columns = re next to im (right multiplication acts by block_r)"""
+    return [(int(n), int(l), np.concatenate([as3(c).real, as3(c).imag], axis=2)) for n, l, c in cl]
+
+
+def fstackc(cl):
+    """flattened: (P, 2, r*m), row 0 = re, row 1 = im (scalars and rotation act on it)"""
+    out = []
+    for n, l, c in cl:
+        c3 = as3(c); P = c3.shape[0]
+        out.append((int(n), int(l), np.stack([c3.real.reshape(P, -1), c3.imag.reshape(P, -1)], axis=1)))
+    return out
+
+
+def block_l(C):
+    C = np.atleast_2d(np.asarray(C)).astype(np.complex128)
+    return np.block([[C.real, -C.imag], [C.imag, C.real]])
+
+
+def block_r(C):
+    C = np.atleast_2d(np.asarray(C)).astype(np.complex128)
+    return np.block([[C.real, C.imag], [-C.imag, C.real]])
+
+
 def real_coefflist(t):
     """implementation result -> [(n, l, real ndarray)]; complex dtype with zero imaginary part allowed"""
     out = []
